@@ -28,9 +28,14 @@ fn trim(mut v: M) -> M {
     }
     v
 }
-/// library convention: degree(0) = 0
+/// degree of a non-zero polynomial; for the zero polynomial the library answers 0 today
 fn m_deg(a: &[u64]) -> usize {
     a.len().saturating_sub(1)
+}
+/// the property only says that asking for the degree never fails: for the zero polynomial any answer is
+/// accepted (the value 0 is observed as a class in `dense_unary` / `sparse_unary`)
+fn deg_ok(d: usize, want: &[u64]) -> bool {
+    want.is_empty() || d == want.len() - 1
 }
 fn m_add(a: &[u64], b: &[u64], p: u64) -> M {
     let n = a.len().max(b.len());
@@ -229,7 +234,7 @@ fn dense_problems<F: PrimeField>(got: &DensePolynomial<F>, want: &[u64]) -> Vec<
     match catch_unwind(AssertUnwindSafe(|| got.degree())) {
         Err(p) => pr.push(format!("degree() panics ({})", pmsg(p))),
         Ok(d) => {
-            if d != m_deg(want) {
+            if !deg_ok(d, want) {
                 pr.push(format!("degree() = {d} want {}", m_deg(want)));
             }
         }
@@ -260,7 +265,7 @@ fn sparse_problems<F: PrimeField>(got: &SparsePolynomial<F>, want: &[u64], p: u6
     match catch_unwind(AssertUnwindSafe(|| got.degree())) {
         Err(e) => pr.push(format!("degree() panics ({})", pmsg(e))),
         Ok(d) => {
-            if d != m_deg(want) {
+            if !deg_ok(d, want) {
                 pr.push(format!("degree() = {d} want {}", m_deg(want)));
             }
         }
@@ -279,7 +284,7 @@ fn expect_dense<F: PrimeField>(loc: &mut Loc, site: &str, got: &DensePolynomial<
     // cheap verdict first; the full diagnosis is only formatted for recorded cases
     let ok = got.coeffs.len() == want.len()
         && got.coeffs.iter().zip(want).all(|(c, w)| fu(c) == *w)
-        && matches!(catch_unwind(AssertUnwindSafe(|| got.degree())), Ok(d) if d == m_deg(want))
+        && matches!(catch_unwind(AssertUnwindSafe(|| got.degree())), Ok(d) if deg_ok(d, want))
         && *got == dense::<F>(want)
         && got.is_zero() == want.is_empty();
     if !ok {
@@ -291,7 +296,7 @@ fn expect_sparse<F: PrimeField>(loc: &mut Loc, site: &str, got: &SparsePolynomia
     let mut wi = want.iter().enumerate().filter(|(_, c)| **c != 0);
     let ok = got.iter().all(|(d, c)| wi.next() == Some((*d, &fu(c))))
         && wi.next().is_none()
-        && matches!(catch_unwind(AssertUnwindSafe(|| got.degree())), Ok(d) if d == m_deg(want))
+        && matches!(catch_unwind(AssertUnwindSafe(|| got.degree())), Ok(d) if deg_ok(d, want))
         && *got == sparse::<F>(want)
         && got.is_zero() == want.is_empty();
     if !ok {
@@ -390,9 +395,25 @@ fn dense_unary<F: PrimeField>(ctx: &mut Ctx, fname: &str, k: usize) {
         });
         let dos = DenseOrSparsePolynomial::from(&da);
         let dd = guard(loc, "dos_degree", &|| w("DenseOrSparse(dense).degree()/is_zero()"), || (dos.degree(), dos.is_zero()));
-        check_at(loc, "dos_degree", dd.map_or(true, |x| x == (m_deg(&a), a.is_empty())), || w("DenseOrSparse(dense).degree()/is_zero()"));
-        let ti: Result<SparsePolynomial<F>, ()> = DenseOrSparsePolynomial::from(da.clone()).try_into();
-        check_at(loc, "dos_try_into_sparse", ti.is_err(), || w("DenseOrSparse(dense).try_into::<Sparse>() must be Err"));
+        check_at(loc, "dos_degree", dd.map_or(true, |x| deg_ok(x.0, &a) && x.1 == a.is_empty()), || w("DenseOrSparse(dense).degree()/is_zero()"));
+        if a.is_empty() {
+            loc.class(if da.degree() == 0 { "observed:degree_of_zero_polynomial_is_0" } else { "observed:degree_of_zero_polynomial_is_not_0" });
+        }
+        // a dense value behind DenseOrSparse: the conversion to Sparse may refuse (Err, today's behaviour) or convert;
+        // a converted value must be the same polynomial in canonical form
+        let ti: Option<Result<SparsePolynomial<F>, ()>> =
+            guard(loc, "dos_try_into_sparse", &|| w("DenseOrSparse(dense).try_into::<Sparse>()"), || DenseOrSparsePolynomial::from(da.clone()).try_into());
+        match ti {
+            Some(Ok(s)) => {
+                loc.class("observed:dos_dense_try_into_sparse_converts");
+                expect_sparse(loc, "dos_try_into_sparse", &s, &a, || w("DenseOrSparse(dense).try_into::<Sparse>()"));
+            }
+            Some(Err(())) => {
+                loc.class("observed:dos_dense_try_into_sparse_is_err");
+                loc.op();
+            }
+            None => {}
+        }
     });
 }
 
@@ -490,6 +511,97 @@ fn dense_pairs<F: PrimeField>(ctx: &mut Ctx, fname: &str, k: usize) {
     });
 }
 
+// ------------------------------------------ non-canonical dense operands ----
+/// `DensePolynomial { coeffs }` / DerefMut let a caller build values with trailing zero coefficients.  The
+/// property speaks about canonical representations, so for such operands: a panic (the library asserts the
+/// invariant in `degree()`) is only counted; an operation that does answer must answer with the right
+/// polynomial (VALUES are compared, i.e. after trimming - a canonical result is not demanded).
+fn nc_dense<F: PrimeField>(loc: &mut Loc, site: &str, panics: &'static str, want: &[u64], what: &dyn Fn() -> String, f: impl FnOnce() -> DensePolynomial<F>) {
+    loc.op();
+    match catch_unwind(AssertUnwindSafe(f)) {
+        Err(_) => loc.class(panics),
+        Ok(g) => {
+            let gv = trim(dvec(&g));
+            if gv != want {
+                report(loc, site, || format!("{}: got coeffs {:?} (value {gv:?}) want the value {want:?}", what(), dvec(&g)));
+            }
+        }
+    }
+}
+fn noncanonical_dense<F: PrimeField>(ctx: &mut Ctx, fname: &str, ka: usize, kb: usize) {
+    let p = modulus::<F>();
+    let (na, nb) = (p.pow(ka as u32), p.pow(kb as u32));
+    sweep(ctx, &format!("noncanonical_dense.{fname}.len{ka}x{kb}"), na * nb * 4, |i, loc| {
+        let [pad, ib, ia] = unrank(i, [4, nb, na]);
+        let a = trim(unrank_vec(ia, &vec![p; ka]));
+        let b = trim(unrank_vec(ib, &vec![p; kb]));
+        // padding: a gets 1 or 2 trailing zeros; b is canonical or gets 1
+        let (pa, pb) = (1 + (pad & 1) as usize, (pad >> 1) as usize);
+        let raw = |m: &[u64], z: usize| -> DensePolynomial<F> {
+            let mut c: Vec<F> = m.iter().map(|x| fe::<F>(*x)).collect();
+            c.extend(std::iter::repeat(F::zero()).take(z));
+            DensePolynomial { coeffs: c }
+        };
+        let (x, y) = (raw(&a, pa), raw(&b, pb));
+        let w = |op: &str| format!("F_{p} x = coeffs {:?} (value {a:?}), y = coeffs {:?} (value {b:?}): {op}", dvec(&x), dvec(&y));
+        let w = &w;
+        if loc.sampling() {
+            loc.sample(w("operators on dense operands with trailing zero coefficients"));
+        }
+        loc.class("noncanonical_operand");
+        loc.class_if(a.is_empty(), "noncanonical_operand:all_zero_coefficients");
+        loc.class_if(pb > 0, "noncanonical_operand:both");
+        // degree / is_zero / evaluate
+        loc.op();
+        match catch_unwind(AssertUnwindSafe(|| x.degree())) {
+            Err(_) => loc.class("observed:noncanonical_degree_panics"),
+            Ok(d) => check_at(loc, "noncanonical_degree", deg_ok(d, &a), || w(&format!("x.degree() = {d} want {}", m_deg(&a)))),
+        }
+        match catch_unwind(AssertUnwindSafe(|| x.is_zero())) {
+            Err(_) => loc.class("observed:noncanonical_is_zero_panics"),
+            Ok(z) => check_at(loc, "noncanonical_is_zero", z == a.is_empty(), || w(&format!("x.is_zero() = {z}"))),
+        }
+        for t in 0..p {
+            match catch_unwind(AssertUnwindSafe(|| x.evaluate(&fe::<F>(t)))) {
+                Err(_) => loc.class("observed:noncanonical_evaluate_panics"),
+                Ok(v) => check_at(loc, "noncanonical_evaluate", fu(&v) == m_eval(&a, t, p), || w(&format!("x.evaluate({t}) = {} want {}", fu(&v), m_eval(&a, t, p)))),
+            }
+        }
+        nc_dense(loc, "noncanonical_neg", "observed:noncanonical_neg_panics", &m_neg(&a, p), &|| w("-x"), || -x.clone());
+        nc_dense(loc, "noncanonical_scale", "observed:noncanonical_scale_panics", &m_scale(&a, 2, p), &|| w("&x * 2"), || &x * fe::<F>(2));
+        let (sum, diff, prod) = (m_add(&a, &b, p), m_sub(&a, &b, p), m_mul(&a, &b, p));
+        nc_dense(loc, "noncanonical_add", "observed:noncanonical_add_panics", &sum, &|| w("&x + &y"), || &x + &y);
+        nc_dense(loc, "noncanonical_add", "observed:noncanonical_add_panics", &sum, &|| w("&y + &x"), || &y + &x);
+        nc_dense(loc, "noncanonical_add_assign", "observed:noncanonical_add_assign_panics", &sum, &|| w("x += &y"), || {
+            let mut t = x.clone();
+            t += &y;
+            t
+        });
+        nc_dense(loc, "noncanonical_add_assign_scaled", "observed:noncanonical_add_assign_scaled_panics", &m_add(&a, &m_scale(&b, 2, p), p), &|| w("x += (2, &y)"), || {
+            let mut t = x.clone();
+            t += (fe::<F>(2), &y);
+            t
+        });
+        nc_dense(loc, "noncanonical_sub", "observed:noncanonical_sub_panics", &diff, &|| w("&x - &y"), || &x - &y);
+        nc_dense(loc, "noncanonical_sub", "observed:noncanonical_sub_panics", &m_neg(&diff, p), &|| w("&y - &x"), || &y - &x);
+        nc_dense(loc, "noncanonical_sub_assign", "observed:noncanonical_sub_assign_panics", &diff, &|| w("x -= &y"), || {
+            let mut t = x.clone();
+            t -= &y;
+            t
+        });
+        nc_dense(loc, "noncanonical_naive_mul", "observed:noncanonical_naive_mul_panics", &prod, &|| w("x.naive_mul(&y)"), || x.naive_mul(&y));
+        nc_dense(loc, "noncanonical_mul_fft", "observed:noncanonical_mul_fft_panics", &prod, &|| w("&x * &y"), || &x * &y);
+        if !b.is_empty() {
+            let q = m_divrem(&a, &b, p).0;
+            nc_dense(loc, "noncanonical_div", "observed:noncanonical_div_panics", &q, &|| w("&x / &y"), || &x / &y);
+        }
+        if !a.is_empty() {
+            let q = m_divrem(&b, &a, p).0;
+            nc_dense(loc, "noncanonical_div", "observed:noncanonical_div_panics", &q, &|| w("&y / &x"), || &y / &x);
+        }
+    });
+}
+
 // ------------------------------------------------------------ sparse ----
 const SPARSE_DEGS: [usize; 6] = [0, 1, 2, 3, 5, 8];
 
@@ -567,7 +679,7 @@ fn sparse_unary<F: PrimeField>(ctx: &mut Ctx, fname: &str, max_terms: usize) {
         });
         let dos = DenseOrSparsePolynomial::from(&sa);
         let dd = guard(loc, "dos_degree", &|| w("DenseOrSparse(sparse).degree()/is_zero()"), || (dos.degree(), dos.is_zero()));
-        check_at(loc, "dos_degree", dd.map_or(true, |x| x == (m_deg(&a), a.is_empty())), || w("DenseOrSparse(sparse).degree()/is_zero()"));
+        check_at(loc, "dos_degree", dd.map_or(true, |x| deg_ok(x.0, &a) && x.1 == a.is_empty()), || w("DenseOrSparse(sparse).degree()/is_zero()"));
         let ti: Option<Result<SparsePolynomial<F>, ()>> =
             guard(loc, "dos_try_into_sparse", &|| w("DenseOrSparse(sparse).try_into()"), || DenseOrSparsePolynomial::from(sa.clone()).try_into());
         match ti {
@@ -716,6 +828,73 @@ fn mixed_pairs<F: PrimeField>(ctx: &mut Ctx, fname: &str, k: usize, max_terms: u
     });
 }
 
+/// Second pair universe: long dense dividends over the coefficient alphabet {0, 1, -1} against sparse
+/// divisors with gaps, so that long division takes several quotient steps over a gappy divisor (the small
+/// universes above stop at 4 dense coefficients / 3 sparse terms).
+const GAPPY_DIVISOR_DEGS: [&[usize]; 3] = [&[0, 2, 5], &[1, 4], &[3, 7]];
+fn gappy_division<F: PrimeField>(ctx: &mut Ctx, fname: &str, min_len: usize, max_len: usize) {
+    let p = modulus::<F>();
+    let alpha = [0u64, 1, p - 1];
+    let mut dividends: Vec<M> = Vec::new();
+    for l in min_len..=max_len {
+        for i in 0..3u64.pow(l as u32 - 1) * 2 {
+            let mut rad = vec![3u64; l - 1];
+            rad.push(2);
+            let d = unrank_vec(i, &rad);
+            let mut v: M = d[..l - 1].iter().map(|j| alpha[*j as usize]).collect();
+            v.push(alpha[1 + d[l - 1] as usize]);
+            dividends.push(v);
+        }
+    }
+    let mut divisors: Vec<Vec<(usize, u64)>> = Vec::new();
+    for degs in GAPPY_DIVISOR_DEGS {
+        for ci in 0..(p - 1).pow(degs.len() as u32) {
+            let cs = unrank_vec(ci, &vec![p - 1; degs.len()]);
+            divisors.push(degs.iter().zip(cs.iter()).map(|(d, c)| (*d, c + 1)).collect());
+        }
+    }
+    let (na, nb) = (dividends.len() as u64, divisors.len() as u64);
+    sweep(ctx, &format!("gappy_division.{fname}.len{min_len}to{max_len}"), na * nb, |i, loc| {
+        let [ib, ia] = unrank(i, [nb, na]);
+        let a = &dividends[ia as usize];
+        let tb = &divisors[ib as usize];
+        let b = m_from_terms(tb, p);
+        let w = |op: &str| format!("F_{p} dense a={a:?} sparse b={tb:?}: {op}");
+        if loc.sampling() {
+            loc.sample(w("divide_with_q_and_r: dense/sparse, sparse/sparse, dense/dense, sparse/dense and b / a; &a / &b"));
+        }
+        let (da, sa) = (dense::<F>(a), sparse::<F>(a));
+        let (db, sb) = (dense::<F>(&b), sparse::<F>(&b));
+        let (q, r) = m_divrem(a, &b, p);
+        let qterms = q.iter().filter(|c| **c != 0).count();
+        loc.class_if(qterms >= 3, "gappy_div:quotient>=3_terms");
+        loc.class_if(qterms >= 3 && tb.len() == 3, "gappy_div:quotient>=3_terms_3_term_divisor");
+        loc.class_if(q.len() >= 2 && q[..q.len() - 1].contains(&0), "gappy_div:interior_zero_in_quotient");
+        loc.class_if(!q.is_empty() && r.is_empty(), "gappy_div:exact");
+        loc.class_if(!q.is_empty() && !r.is_empty() && r.len() + 1 < b.len(), "gappy_div:remainder_drops_more_than_one_degree");
+        loc.class_if(b.len() > a.len(), "divisor_deg>dividend");
+        chk_qr(loc, "div_q_r_dense_sparse", &q, &r, || w("DenseOrSparse(&a).divide_with_q_and_r(&DenseOrSparse(&b))"), || {
+            DenseOrSparsePolynomial::from(&da).divide_with_q_and_r(&DenseOrSparsePolynomial::from(&sb))
+        });
+        chk_qr(loc, "div_q_r_sparse_sparse", &q, &r, || w("DenseOrSparse(&sparse(a)).divide_with_q_and_r(&DenseOrSparse(&b))"), || {
+            DenseOrSparsePolynomial::from(&sa).divide_with_q_and_r(&DenseOrSparsePolynomial::from(&sb))
+        });
+        chk_qr(loc, "div_q_r_dense_dense", &q, &r, || w("DenseOrSparse(&a).divide_with_q_and_r(&DenseOrSparse(&dense(b)))"), || {
+            DenseOrSparsePolynomial::from(&da).divide_with_q_and_r(&DenseOrSparsePolynomial::from(&db))
+        });
+        chk_qr(loc, "div_q_r_sparse_dense", &q, &r, || w("DenseOrSparse(&sparse(a)).divide_with_q_and_r(&DenseOrSparse(&dense(b)))"), || {
+            DenseOrSparsePolynomial::from(&sa).divide_with_q_and_r(&DenseOrSparsePolynomial::from(&db))
+        });
+        chk_dense(loc, "dense_div", &q, || w("&a / &dense(b)"), || &da / &db);
+        // the other way round: gappy sparse dividend, long dense divisor
+        let (q2, r2) = m_divrem(&b, a, p);
+        loc.class_if(!q2.is_empty(), "gappy_div:sparse_dividend_dense_divisor_quotient_nonzero");
+        chk_qr(loc, "div_q_r_sparse_dense", &q2, &r2, || w("DenseOrSparse(&b).divide_with_q_and_r(&DenseOrSparse(&a))"), || {
+            DenseOrSparsePolynomial::from(&sb).divide_with_q_and_r(&DenseOrSparsePolynomial::from(&da))
+        });
+    });
+}
+
 // ------------------------------------------------------------ domains ----
 struct DomCase {
     di: usize,
@@ -789,10 +968,15 @@ fn domain_cases(p: u64, sizes: &[usize], offsets: &[u64], exhaustive: Option<(us
     let mut out = Vec::new();
     for (di, n) in sizes.iter().enumerate() {
         let n = *n;
+        // up to 5n+2: `divide_by_vanishing_poly` adds block i of the operand with weight (h^n)^i for
+        // i in 1..len/n, so len >= 4n is needed for the third weight step (len/n = 5 at the top)
         let lens: Vec<usize> = if n <= 16 {
-            (0..=3 * n + 1).collect()
+            (0..=5 * n + 2).collect()
         } else {
-            dedup_sorted(vec![0, 1, 2, n / 2 - 1, n / 2, n / 2 + 1, n - 1, n, n + 1, 2 * n - 1, 2 * n, 2 * n + 1, 3 * n - 1, 3 * n, 3 * n + 1])
+            dedup_sorted(vec![
+                0, 1, 2, n / 4 - 1, n / 4, n / 4 + 1, n / 2 - 1, n / 2, n / 2 + 1, n - 1, n, n + 1, 2 * n - 1, 2 * n, 2 * n + 1, 3 * n - 1, 3 * n, 3 * n + 1,
+                4 * n - 1, 4 * n, 4 * n + 1, 5 * n - 1, 5 * n, 5 * n + 1, 5 * n + 2,
+            ])
         };
         for h in offsets {
             let mut ops: Vec<M> = Vec::new();
@@ -860,7 +1044,10 @@ fn domain_classes(loc: &mut Loc, l: usize, n: usize, h: u64, hn: u64) {
     loc.class_if(l >= 2 * n, "operand>=2x_domain");
     loc.class_if(l == n, "operand_len==domain");
     loc.class_if(l < n, "operand_shorter_than_domain");
-    loc.class_if(l * 2 <= n && l > 0, "fft:degree_aware_path");
+    // len/n >= 4: the block loop of divide_by_vanishing_poly runs i = 1, 2, 3 (weights h^n, h^2n, h^3n)
+    loc.class_if(l >= 4 * n, "operand>=4x_domain");
+    loc.class_if(l >= 4 * n && hn != 1, "operand>=4x_domain:offset^size!=1");
+    loc.class_if(l >= 5 * n && n > 1, "operand>=5x_domain");
 }
 
 fn vanishing<F: PrimeField, D: EvaluationDomain<F> + Sync>(ctx: &mut Ctx, tag: &str, doms: &[D], cases: &[DomCase]) {
@@ -898,7 +1085,18 @@ fn chk_evals<F: PrimeField, D: EvaluationDomain<F>>(loc: &mut Loc, site: &str, w
     }
 }
 
-fn eval_domain<F: PrimeField, D: EvaluationDomain<F> + Sync>(ctx: &mut Ctx, tag: &str, doms: &[D], cases: &[DomCase]) {
+/// which kind of transform a domain value runs (read off the value itself, not modelled)
+fn general_is_radix2<F: FftField>(d: &GeneralEvaluationDomain<F>) -> bool {
+    matches!(d, GeneralEvaluationDomain::Radix2(_))
+}
+fn always_radix2<F: FftField>(_: &Radix2EvaluationDomain<F>) -> bool {
+    true
+}
+fn never_radix2<F: FftField>(_: &MixedRadixEvaluationDomain<F>) -> bool {
+    false
+}
+
+fn eval_domain<F: PrimeField, D: EvaluationDomain<F> + Sync>(ctx: &mut Ctx, tag: &str, doms: &[D], cases: &[DomCase], is_r2: fn(&D) -> bool) {
     let p = modulus::<F>();
     sweep(ctx, &format!("eval_domain.{tag}"), cases.len() as u64, |i, loc| {
         let c = &cases[i as usize];
@@ -910,6 +1108,14 @@ fn eval_domain<F: PrimeField, D: EvaluationDomain<F> + Sync>(ctx: &mut Ctx, tag:
         let z = zpoly(n, h, p);
         let hn = (p - z[0]) % p;
         domain_classes(loc, a.len(), n, h, hn);
+        // the dense evaluate_over_domain* calls below fold the operand to min(len, n) coefficients and hand
+        // them to fft_in_place; a radix-2 domain takes the degree-aware path iff 4 * that length <= n
+        // (DEGREE_AWARE_FFT_THRESHOLD_FACTOR = 4 in radix2/mod.rs; mixed-radix domains have no such path)
+        let r2 = is_r2(&dom);
+        let fl = a.len().min(n);
+        loc.class_if(r2 && fl > 0 && fl * 4 <= n, "fft:degree_aware_path");
+        loc.class_if(r2 && fl > 0 && fl * 4 <= n && h != 1, "fft:degree_aware_path_on_coset");
+        loc.class_if(r2 && n >= 4 && fl * 4 > n && (fl - 1) * 4 <= n, "fft:just_above_degree_aware_threshold");
         let pts: Vec<u64> = (0..n).map(|j| h * m_pow(g, j as u64, p) % p).collect();
         let w = |op: &str| format!("F_{p} domain size {n} gen {g} offset {h} a={a:?}: {op}");
         if loc.sampling() {
@@ -1000,6 +1206,79 @@ fn evaluations_ops<F: PrimeField, D: EvaluationDomain<F> + Sync>(ctx: &mut Ctx, 
         let r = m_divrem(&m_mul(&a, &b, p), &z, p).1;
         loc.class_if(a.len() + b.len() > n + 1, "product_longer_than_domain");
         chk_dense(loc, "evaluations_mul_interpolate", &r, || w("(&A * &B).interpolate()"), || (&ea * &eb).interpolate());
+        chk_mul_in_domain(loc, &dom, &va, &vb, &mul, Some(&r), &|| w("domain.mul_polynomials_in_evaluation_domain(A, B)"));
+    });
+}
+
+/// `EvaluationDomain::mul_polynomials_in_evaluation_domain`: the evaluations of the product over the domain
+/// (pointwise products); interpolated back (`ifft`) they give `interp` = a*b mod Z, i.e. a*b when it fits.
+fn chk_mul_in_domain<F: PrimeField, D: EvaluationDomain<F>>(loc: &mut Loc, dom: &D, va: &[u64], vb: &[u64], want: &[u64], interp: Option<&[u64]>, what: &dyn Fn() -> String) {
+    let site = "mul_polynomials_in_evaluation_domain";
+    let fa: Vec<F> = va.iter().map(|x| fe::<F>(*x)).collect();
+    let fb: Vec<F> = vb.iter().map(|x| fe::<F>(*x)).collect();
+    if let Some(g) = guard(loc, site, what, || dom.mul_polynomials_in_evaluation_domain(&fa, &fb)) {
+        let gu: Vec<u64> = g.iter().map(fu).collect();
+        check_at(loc, site, gu == want, || format!("{}: got {gu:?} want {want:?}", what()));
+        if let Some(r) = interp {
+            if let Some(c) = guard(loc, site, what, || dom.ifft(&g)) {
+                let cu = trim(c.iter().map(fu).collect());
+                check_at(loc, site, cu == r, || format!("{}: interpolated back (ifft) gives {cu:?} want {r:?}", what()));
+            }
+        }
+    }
+}
+
+/// product in evaluation form on structured operands of every length 0..=n (all ordered pairs), on every
+/// listed domain and offset
+fn mul_in_eval_domain<F: PrimeField, D: EvaluationDomain<F> + Sync>(ctx: &mut Ctx, tag: &str, doms: &[D], offsets: &[u64], exhaustive_k: usize) {
+    let p = modulus::<F>();
+    let mut groups: Vec<(usize, u64, Vec<M>)> = Vec::new();
+    let mut cases: Vec<(u32, u32, u32)> = Vec::new();
+    for (di, d) in doms.iter().enumerate() {
+        let n = d.size();
+        let mut ops: Vec<M> = vec![vec![]];
+        for l in 1..=n {
+            ops.extend((0..N_FAM).map(|w| fam_fixed(l, w, p)));
+        }
+        for i in 0..p.pow(exhaustive_k as u32) {
+            ops.push(trim(unrank_vec(i, &vec![p; exhaustive_k])));
+        }
+        let ops = dedup_sorted(ops);
+        for h in offsets {
+            let gi = groups.len() as u32;
+            for ia in 0..ops.len() as u32 {
+                for ib in 0..ops.len() as u32 {
+                    cases.push((gi, ia, ib));
+                }
+            }
+            groups.push((di, *h, ops.clone()));
+        }
+    }
+    sweep(ctx, &format!("mul_in_eval_domain.{tag}"), cases.len() as u64, |i, loc| {
+        let (gi, ia, ib) = cases[i as usize];
+        let (di, h, ops) = &groups[gi as usize];
+        let (a, b) = (&ops[ia as usize], &ops[ib as usize]);
+        let base = &doms[*di];
+        let n = base.size();
+        let h = *h;
+        let dom = coset_of::<F, D>(base, h);
+        let g = fu(&base.group_gen());
+        let pts: Vec<u64> = (0..n).map(|j| h * m_pow(g, j as u64, p) % p).collect();
+        let va: Vec<u64> = pts.iter().map(|x| m_eval(a, *x, p)).collect();
+        let vb: Vec<u64> = pts.iter().map(|x| m_eval(b, *x, p)).collect();
+        let want: Vec<u64> = va.iter().zip(vb.iter()).map(|(x, y)| x * y % p).collect();
+        let prod = m_mul(a, b, p);
+        let r = m_divrem(&prod, &zpoly(n, h, p), p).1;
+        let w = || format!("F_{p} domain size {n} gen {g} offset {h} a={a:?} b={b:?}: domain.mul_polynomials_in_evaluation_domain(evals of a, evals of b)");
+        if loc.sampling() {
+            loc.sample(w());
+        }
+        loc.class_if(h != 1, "coset_domain");
+        loc.class_if(a.is_empty() || b.is_empty(), "mul_in_eval_domain:zero_operand");
+        loc.class_if(!prod.is_empty() && prod.len() < n, "mul_in_eval_domain:product_fits");
+        loc.class_if(prod.len() == n, "mul_in_eval_domain:product_len==domain_size");
+        loc.class_if(prod.len() > n, "mul_in_eval_domain:product_longer_than_domain");
+        chk_mul_in_domain(loc, &dom, &va, &vb, &want, Some(&r), &w);
     });
 }
 
@@ -1024,7 +1303,12 @@ fn fft_mul<F: PrimeField>(ctx: &mut Ctx, fname: &str, lens: &[usize]) {
         let dsize = la + lb - 1;
         loc.class_if(dsize > (1usize << F::TWO_ADICITY), "fft_mul:mixed_radix_domain");
         loc.class_if(dsize.is_power_of_two() || dsize == cap, "fft_mul:product_len==domain_size");
-        loc.class_if(la * 4 <= dsize || lb * 4 <= dsize, "fft:degree_aware_path");
+        // `&a * &b` builds GeneralEvaluationDomain::new(la + lb - 1) and transforms both operands over it: the
+        // degree-aware path runs iff that domain is a radix-2 one and 4 * operand length <= its size
+        if let Some(GeneralEvaluationDomain::Radix2(d)) = GeneralEvaluationDomain::<F>::new(dsize) {
+            loc.class_if(la * 4 <= d.size() || lb * 4 <= d.size(), "fft:degree_aware_path");
+            loc.class_if(la * 4 <= d.size() || lb * 4 <= d.size(), "fft_mul:degree_aware_path");
+        }
         let prod = m_mul(&a, &b, p);
         let (da, db) = (dense::<F>(&a), dense::<F>(&b));
         chk_dense(loc, "dense_mul_fft", &prod, || w("&a * &b"), || &da * &db);
@@ -1282,12 +1566,28 @@ fn main() {
         "ctor:interior_zero_coefficient",
         "fft_mul:mixed_radix_domain",
         "fft:degree_aware_path",
+        "fft:degree_aware_path_on_coset",
+        "fft:just_above_degree_aware_threshold",
+        "fft_mul:degree_aware_path",
+        "operand>=4x_domain",
+        "operand>=4x_domain:offset^size!=1",
+        "operand>=5x_domain",
+        "mul_in_eval_domain:product_fits",
+        "mul_in_eval_domain:product_len==domain_size",
+        "mul_in_eval_domain:product_longer_than_domain",
+        "gappy_div:quotient>=3_terms",
+        "gappy_div:quotient>=3_terms_3_term_divisor",
+        "gappy_div:exact",
+        "noncanonical_operand",
+        "noncanonical_operand:both",
         "scaled_add:leading_terms_cancel",
         "evals_div:divisor_nonvanishing",
     ]);
     ctx.assume("oracle: coefficient vectors Vec<u64> mod p with schoolbook add/sub/mul, Horner evaluation, long division, inverse by search (validated at start-up against evaluation at every point of F_5, F_7)");
     ctx.assume("model <-> implementation conversion through F::from(u64) / into_bigint() (property C01)");
     ctx.assume("evaluation domains: group_gen() is read from the library and validated to have order exactly size(); the i-th domain point is offset*group_gen^i (construction of domains is property C07)");
+    ctx.assume("non-canonical dense operands (trailing zero coefficients, sweep noncanonical_dense) are outside 'canonical representations': a panic is only counted (classes observed:noncanonical_*), a returned result must have the right value after trimming");
+    ctx.assume("degree() of the zero polynomial: any answer is accepted (the property only says that asking never fails); DenseOrSparse(dense).try_into::<Sparse>() may be Err or the same polynomial");
     ctx.assume("operands are canonical values; sparse constructor inputs have pairwise distinct degrees (duplicates are documented as unsupported)");
     ctx.assume("&a * &b (FFT) is required to be right whenever a domain of size >= len(a)+len(b)-1 exists; otherwise ('if F is smooth') a refusal by panic is accepted but a returned value must be the product");
     ctx.assume("Evaluations `/`: only divisors that vanish nowhere on the domain; division by the zero polynomial is excluded (explicit panic in the library)");
@@ -1308,12 +1608,23 @@ fn main() {
     dense_pairs::<D7>(&mut ctx, "D7", k7);
     dense_pairs::<D17>(&mut ctx, "D17", k17);
 
+    // dense operands with trailing zeros (constructible through the public field)
+    noncanonical_dense::<D5>(&mut ctx, "D5", 3, 2);
+    ctx.bound("noncanonical_dense", "F_5: x = every polynomial with <=3 coefficients padded with 1 or 2 zero coefficients, y = every polynomial with <=2 coefficients, canonical or padded with 1: degree, is_zero, evaluate everywhere, neg, scale, + - += -= +=(2,.) naive_mul * / in both operand orders; values compared after trimming, panics only counted");
+
     // sparse
     ctx.bound("sparse_universe", "term lists with <=3 terms, degrees in {0,1,2,3,5,8}, coefficients in F_5^* (1545 polynomials, all ordered pairs), constructor fed every permutation; the same over F_7 (4897 polynomials) in thorough; dense x sparse: all dense with <=4 coeffs x all sparse");
     sparse_unary::<D5>(&mut ctx, "D5", 3);
     sparse_ctor_zero_terms::<D5>(&mut ctx, "D5", 3);
     sparse_pairs::<D5>(&mut ctx, "D5", 3);
     mixed_pairs::<D5>(&mut ctx, "D5", 4, 3);
+    // second universe: long {0,1,-1} dividends, gappy sparse divisors
+    ctx.bound("gappy_division", "dense dividends with 5..=8 (quick) / 5..=9 (thorough) coefficients in {0,1,-1} x sparse divisors on degrees {0,2,5}, {1,4}, {3,7} with every non-zero coefficient choice, over F_5 (and F_7 in thorough); dividend and divisor each in dense and sparse form, and the reverse division");
+    let gl = ctx.t(8, 9);
+    gappy_division::<D5>(&mut ctx, "D5", 5, gl);
+    if !q {
+        gappy_division::<D7>(&mut ctx, "D7", 5, 8);
+    }
     if !q {
         sparse_unary::<D7>(&mut ctx, "D7", 3);
         sparse_ctor_zero_terms::<D7>(&mut ctx, "D7", 3);
@@ -1327,9 +1638,9 @@ fn main() {
         ctx.validate(sizes == vec![1, 2, 4, 8, 16], "F_17 general domains have sizes 1,2,4,8,16");
         let offsets: Vec<u64> = (1..17).collect();
         let cases = domain_cases(17, &sizes, &offsets, Some((4, ctx.t(2, 3))));
-        ctx.bound("domains.D17", "sizes 1,2,4,8,16; every offset in F_17^*; operand lengths 0..=3n+1 (structured families) + all polys with <=2 (quick) / <=3 (thorough) coeffs for n<=4");
+        ctx.bound("domains.D17", "sizes 1,2,4,8,16; every offset in F_17^*; operand lengths 0..=5n+2 (structured families) + all polys with <=2 (quick) / <=3 (thorough) coeffs for n<=4");
         vanishing::<D17, _>(&mut ctx, "D17", &doms, &cases);
-        eval_domain::<D17, _>(&mut ctx, "D17", &doms, &cases);
+        eval_domain::<D17, _>(&mut ctx, "D17", &doms, &cases, general_is_radix2);
         let small: Vec<GeneralEvaluationDomain<D17>> = doms.iter().filter(|d| d.size() <= 8).cloned().collect();
         evaluations_ops::<D17, _>(&mut ctx, "D17", &small, &[1, 3, 16, 2], 2);
         ctx.bound("evaluations_ops.D17", "domains of size 1,2,4,8 x offsets {1,3,16,2} x all ordered pairs of polys with <=2 coeffs; thorough: size 4 x offsets {1,3} x all pairs with <=3 coeffs");
@@ -1337,11 +1648,14 @@ fn main() {
             let four: Vec<GeneralEvaluationDomain<D17>> = doms.iter().filter(|d| d.size() == 4).cloned().collect();
             evaluations_ops::<D17, _>(&mut ctx, "D17size4", &four, &[1, 3], 3);
         }
+        mul_in_eval_domain::<D17, _>(&mut ctx, "D17general", &doms, &[1, 3], 2);
         // Radix2EvaluationDomain used directly
         let (rdoms, rsizes) = distinct_domains::<D17, Radix2EvaluationDomain<D17>>(&mut ctx, "D17.radix2", 16);
+        mul_in_eval_domain::<D17, _>(&mut ctx, "D17radix2", &rdoms, &[1, 2], 1);
+        ctx.bound("mul_in_eval_domain", "every listed domain (F_17: sizes 1..16 general and radix-2; F_97 mixed-radix and general) x 2 offsets x all ordered pairs of {0, 5 structured families of every length 1..=n, all polys with <=2 (F_17 general) / <=1 coeffs}");
         let rcases = domain_cases(17, &rsizes, &[1, 3, 2], None);
         vanishing::<D17, _>(&mut ctx, "D17radix2", &rdoms, &rcases);
-        eval_domain::<D17, _>(&mut ctx, "D17radix2", &rdoms, &rcases);
+        eval_domain::<D17, _>(&mut ctx, "D17radix2", &rdoms, &rcases, always_radix2);
     }
     {
         let offsets = [1u64, 5, 96, 2, 35];
@@ -1353,7 +1667,9 @@ fn main() {
         ctx.bound("domains.D97.mixed", format!("sizes {sizes:?}, offsets {offsets:?}"));
         let cases = domain_cases(97, &sizes, &offsets, None);
         vanishing::<D97, _>(&mut ctx, "D97mixed", &doms, &cases);
-        eval_domain::<D97, _>(&mut ctx, "D97mixed", &doms, &cases);
+        eval_domain::<D97, _>(&mut ctx, "D97mixed", &doms, &cases, never_radix2);
+        let msmall: Vec<_> = doms.iter().filter(|d| d.size() <= ctx.t(24, 48)).cloned().collect();
+        mul_in_eval_domain::<D97, _>(&mut ctx, "D97mixed", &msmall, &[1, 5], 1);
         let (gdoms, gsizes) = distinct_domains::<D97, GeneralEvaluationDomain<D97>>(&mut ctx, "D97.general", 96);
         let keep: Vec<usize> = if q { vec![4, 32, 48] } else { gsizes.clone() };
         let gdoms: Vec<_> = gdoms.into_iter().filter(|d| keep.contains(&d.size())).collect();
@@ -1361,7 +1677,9 @@ fn main() {
         ctx.bound("domains.D97.general", format!("sizes {gsizes:?}, offsets {offsets:?}"));
         let gcases = domain_cases(97, &gsizes, &offsets, None);
         vanishing::<D97, _>(&mut ctx, "D97general", &gdoms, &gcases);
-        eval_domain::<D97, _>(&mut ctx, "D97general", &gdoms, &gcases);
+        eval_domain::<D97, _>(&mut ctx, "D97general", &gdoms, &gcases, general_is_radix2);
+        let gsmall: Vec<_> = gdoms.iter().filter(|d| d.size() <= 32).cloned().collect();
+        mul_in_eval_domain::<D97, _>(&mut ctx, "D97general", &gsmall, &[1, 35], 1);
     }
     if !q {
         let offsets = [1u64, 3, 256, 2];
@@ -1369,7 +1687,7 @@ fn main() {
         ctx.bound("domains.D257.general", format!("sizes {sizes:?}, offsets {offsets:?}"));
         let cases = domain_cases(257, &sizes, &offsets, None);
         vanishing::<D257, _>(&mut ctx, "D257general", &doms, &cases);
-        eval_domain::<D257, _>(&mut ctx, "D257general", &doms, &cases);
+        eval_domain::<D257, _>(&mut ctx, "D257general", &doms, &cases, general_is_radix2);
     }
 
     // FFT product on structured operands
